@@ -10,8 +10,11 @@ import (
 	protoenc "google.golang.org/grpc/encoding/proto"
 	"google.golang.org/grpc/mem"
 
+	"github.com/avos-io/goat/gen/goatorepo"
 	"github.com/avos-io/goat/gen/testproto"
 	"google.golang.org/grpc"
+	"google.golang.org/grpc/codes"
+	"google.golang.org/grpc/status"
 )
 
 // zzImpl is the service implementation used by end-to-end harnesses.
@@ -88,4 +91,119 @@ func zzDec(b []byte) int32 {
 		return -1
 	}
 	return m.Value
+}
+
+// zzSymName: a 2-byte name with symbolic second byte (lets names coincide or differ).
+func zzSymName(label string, prefix byte) string {
+	return string([]byte{prefix, vfByte(label)})
+}
+
+func zzCode(err error) codes.Code {
+	if err == nil {
+		return codes.OK
+	}
+	st, _ := status.FromError(err)
+	return st.Code()
+}
+
+// handler programs (hp): 0 echo until EOF; 1 burst of m messages then return nil (reads nothing);
+// 2 reply after EOF (one reply per received message); 3 return nil after the first message (before EOF)
+func zzStreamHandler(rec *zzStreamRec, hp int, m int, k int32, retErr error) grpc.StreamHandler {
+	return func(srv any, stream grpc.ServerStream) error {
+		rec.mu.vfLock()
+		rec.started++
+		rec.ctx = stream.Context()
+		rec.mu.vfUnlock()
+		defer func() {
+			rec.mu.vfLock()
+			rec.returned++
+			rec.mu.vfUnlock()
+		}()
+		switch hp {
+		case 0:
+			for {
+				in := new(testproto.Msg)
+				err := stream.RecvMsg(in)
+				if err == io.EOF {
+					rec.sawEOF = true
+					return retErr
+				}
+				if err != nil {
+					rec.recvErr = err
+					return err
+				}
+				rec.recvd = append(rec.recvd, in.Value)
+				if err := stream.SendMsg(&testproto.Msg{Value: in.Value ^ k}); err != nil {
+					rec.sendErrs++
+					return err
+				}
+			}
+		case 1:
+			for i := 0; i < m; i++ {
+				if err := stream.SendMsg(&testproto.Msg{Value: int32(i+1) ^ k}); err != nil {
+					rec.sendErrs++
+					return err
+				}
+			}
+			return retErr
+		case 2:
+			for {
+				in := new(testproto.Msg)
+				err := stream.RecvMsg(in)
+				if err == io.EOF {
+					rec.sawEOF = true
+					break
+				}
+				if err != nil {
+					rec.recvErr = err
+					return err
+				}
+				rec.recvd = append(rec.recvd, in.Value)
+			}
+			for _, v := range rec.recvd {
+				if err := stream.SendMsg(&testproto.Msg{Value: v ^ k}); err != nil {
+					rec.sendErrs++
+					return err
+				}
+			}
+			return retErr
+		default:
+			in := new(testproto.Msg)
+			err := stream.RecvMsg(in)
+			if err == io.EOF {
+				rec.sawEOF = true
+				return retErr
+			}
+			if err != nil {
+				rec.recvErr = err
+				return err
+			}
+			rec.recvd = append(rec.recvd, in.Value)
+			return retErr
+		}
+	}
+}
+
+func zzBody(v byte) *goatorepo.Body {
+	if v == 0 {
+		return &goatorepo.Body{}
+	}
+	return &goatorepo.Body{Data: []byte{8, v, 0, 0, 0}}
+}
+
+func zzRespHdr() *RpcHeader {
+	return &RpcHeader{Method: "/" + zzSvcName + "/X", Source: "srv", Destination: "cli"}
+}
+
+// zzStreamRec records what a streaming handler observed.
+type zzStreamRec struct {
+	mu       vfMutex
+	started  int
+	returned int
+	recvd    []int32
+	sawEOF   bool
+	recvErr  error
+	sendErrs int
+	ctxDone  bool
+	ctx      context.Context
 }
